@@ -4,6 +4,21 @@ import json, os
 V = os.path.dirname(os.path.dirname(os.path.abspath(__file__)))
 
 CHECKS = {
+    "C03": dict(
+        text="Coq theorems over a transition system of the send side (any number of senders, one writer goroutine, unbuffered hand-off, contexts ending at any step, every schedule): every Write is one whole frame within the limit, a refused or abandoned send contributes no byte, the size check refuses exactly the encodings above the maximum. The same monitors are evaluated on event logs of the real transport under stalled writes, cancellations, timeouts and payload sizes max-3..max+3 for every kind.",
+        note="Trusted: Coq kernel, extraction + OCaml glue (abstraction of the event log), Go harness. Modelled not verified: Go channel/select semantics as encoded in Model/Writer.v; the select arms are regenerated from the source (generated_ok). Promptness is proved as enabledness, bounded time is tested.",
+        technique="Coq proof (LTS invariants over all schedules; monitor acceptance) + monitors on implementation traces + regenerated census",
+        design="6/C03"),
+    "C05": dict(
+        text="Coq theorems on the flat and chunked frame reader: EOF exactly at a frame boundary; a truncated body is fatal and never EOF; zero/negative/non-integer/out-of-int32/above-max prefixes stop before any payload byte for every integer width; bad header bytes are fatal after the frame. The extracted model is run against the white-box frame reader and a whole transport on mutated, truncated (every offset), spliced, length-bombed and random streams with three kinds of stream end.",
+        note="PARTIAL: absence of panics, termination and the allocation bound inside go-codec are tested (recover, wall-clock bound, largest read requested), not proved. go-codec leniencies are part of the model as calibrated on the unchanged tree.",
+        technique="Coq proof (case analysis on the prefix/frame decoder) + extracted-model differential correspondence + property predicates on hostile input",
+        design="6/C05"),
+    "C13": dict(
+        text="Coq theorems over the send-side transition system, for every skeleton, population and schedule: the notifier runs exactly once per call/notification frame immediately before its write with its seqno, call seqnos on the wire are pairwise distinct, a cancellation never precedes its call, a send that began after another returned is not written before it. The same four monitors run on event logs of the real transport (bursts against a stalled connection, cancellations, timeouts, oversize, transient write failures, handler replies).",
+        note="Trusted as C03. The monitors are extracted from Model/Props.v; the abstraction of Write events uses the extracted decoders.",
+        technique="Coq proof (LTS invariants over all schedules; monitor acceptance) + monitors on implementation traces + regenerated census",
+        design="6/C13"),
     "C02": dict(
         text="Coq theorems: every legal msgpack encoding (all integer/string/container widths, by an explicit choice list) of every well-formed value decodes back to it; exact byte layout of the five frame kinds; every legal encoding of a frame with extra trailing elements decodes to the same message. The extracted encoder/decoder are run against frames captured from the public API on a simulated connection and against the frame reader fed by an independent writer.",
         note="Trusted: Coq kernel, extraction + OCaml glue, Go harness, Python writer. Modelled not verified: go-codec generic decoding; its reflection into typed structs, float32 and ext are outside the model. Compressed payloads enter the model through an inflate oracle computed by the harness with compress/gzip / msgpackzip.",
